@@ -5,6 +5,8 @@
 
 #include "TaskBasedIonizationSimulation.hpp"
 
+#include <dirent.h>
+#include <malloc.h>
 #include <sys/stat.h>
 #include <unistd.h>
 
@@ -18,6 +20,10 @@ const char *C01_CLASSES[] = {"launch-count", "not-all-terminated", "done-count",
                              "packet-duplicated", "packet-after-termination",
                              "termination-cause", "task-nesting", "launch",
                              "buffer-overflow", "nontermination", "packet-never-ends", nullptr};
+const char *C12_CLASSES[] = {"crash", "abort", "sanitizer", "hang", "bad-exit",
+                             "missing-output", "uninitialised-dependent",
+                             nullptr};
+const char *C13_CLASSES[] = {"output-differs", nullptr};
 const char *C03_CLASSES[] = {"handover", "neighbour-table", "copy-structure",
                              "estimator-mismatch", "outcome-mismatch", "copy-state",
                              "position-mismatch", nullptr};
@@ -27,6 +33,30 @@ bool in_list(const char **list, const std::string &s) {
     if (s == list[k])
       return true;
   return false;
+}
+
+std::string read_file(const std::string &path) {
+  std::ifstream f(path, std::ios::binary);
+  return std::string((std::istreambuf_iterator< char >(f)),
+                     std::istreambuf_iterator< char >());
+}
+// snapshot files (snap_*) of a run directory: name -> bytes
+std::map< std::string, std::string > snapshot_files(const std::string &dir) {
+  std::map< std::string, std::string > m;
+  DIR *dp = opendir(dir.c_str());
+  if (!dp)
+    return m;
+  while (struct dirent *e = readdir(dp)) {
+    std::string n = e->d_name;
+    if (n.compare(0, 5, "snap_") == 0)
+      m[n] = read_file(dir + "/" + n);
+  }
+  closedir(dp);
+  return m;
+}
+void remove_snapshots(const std::string &dir) {
+  for (auto &kv : snapshot_files(dir))
+    unlink((dir + "/" + kv.first).c_str());
 }
 
 // ------------------------------------------------------- reference model ---
@@ -403,10 +433,12 @@ void reference_check(Ledger &L, int iloop) {
 // ---------------------------------------------------------------- engine ---
 class EIonEngine : public Engine {
 public:
-  std::string prop;
+  std::string prop, mode;
   EIonEngine() {
     const char *p = getenv("VERIF_PROPERTY");
     prop = p ? p : "C01";
+    const char *m = getenv("VERIF_MODE");
+    mode = m ? m : "";
   }
   std::string property() const { return prop; }
   void budget(const std::string &tier, uint64_t &runs, double &seconds) const {
@@ -529,16 +561,197 @@ public:
     c.seed = (int)r.range(0, 100000);
     c.task_plot = false;
     c.writer = 0;
+    if (prop == "C12") {
+      // widen over run modes and optional components
+      c.writer = r.chance(0.3) ? 1 : 0;
+      c.initial_snapshot = r.chance(0.3);
+      c.temperature = r.chance(0.3);
+      c.trackers = r.chance(0.15) && c.nsub[0] * c.nsub[1] * c.nsub[2] > 0;
+      if (r.chance(0.1)) {
+        c.task_plot = true;
+        c.packets = std::min< long >(c.packets, 333);
+      }
+    }
+    if (prop == "C13") {
+      // the property's premise: same seed, same input, one thread
+      c.threads = 1;
+      c.writer = r.chance(0.4) ? 1 : 0;
+      c.temperature = r.chance(0.3);
+      c.initial_snapshot = r.chance(0.3);
+      c.packets = std::min< long >(c.packets, 2600);
+    }
     c.sched = Sched::draw(r, 4000000ull);
     c.sched.total_cap = thorough ? 200000000ull : 60000000ull;
     return c.to_json();
   }
 
+  // one complete run; fills rs/ledger, returns finished
+  struct OneRun {
+    bool finished = false;
+    RunStats rs;
+    uint64_t ledger_hash = 0;
+    std::map< std::string, std::string > files;
+    bool ledger_failed = false;
+    Violation violation;
+    long iterations = 0;
+  };
+  OneRun run_once(const Cfg &c, const std::string &dir, int perturb,
+                  double clock0, bool clock_jumps) {
+    OneRun r;
+    mkdir(dir.c_str(), 0700);
+    remove_snapshots(dir);
+    const std::string pf = c.write_files(dir);
+    if (chdir(dir.c_str())) {
+    }
+    mallopt(M_PERTURB, perturb);
+    Ledger L;
+    L.lay.init(c);
+    L.record_segments = false;
+    int it_seen = 0;
+    L.on_iteration_end = [&](Ledger &, int, const void *const *) {
+      ++it_seen;
+      clock_advance(clock_jumps ? (it_seen % 2 ? 4000. : -1500.) : 1.);
+    };
+    clock_enable(true);
+    clock_set(clock0);
+    run_begin(c.sched, &L);
+    r.finished = guarded([&]() {
+      TaskBasedIonizationSimulation sim(c.threads, pf, c.task_plot,
+                                        c.initial_snapshot, nullptr);
+      sim.initialize();
+      sim.run();
+    });
+    r.rs = run_end();
+    clock_enable(false);
+    mallopt(M_PERTURB, 0);
+    r.ledger_hash = L.ledger_hash;
+    r.ledger_failed = L.failed;
+    r.violation = L.violation;
+    r.iterations = (long)L.stats["iterations"];
+    r.files = snapshot_files(dir);
+    return r;
+  }
+
+  // C13 (same seed, same input, one thread => identical snapshots) and the
+  // C12 heap-perturbation mode: the same case is executed twice while the
+  // simulator varies everything it owns that is not seed or input
+  Outcome execute_twice(const Cfg &c0) {
+    Outcome out;
+    const std::string base = scratch_dir();
+    Rng vr(mix64((uint64_t)c0.seed, 0x13));
+    Cfg c1 = c0, c2 = c0;
+    // second execution: other rdtsc jitter, other heap fill byte, extra
+    // heap traffic before the run
+    c2.sched.ticks_jitter = c0.sched.ticks_jitter ? 0 : 777;
+    const bool clock_class_b = (prop == "C13") && vr.chance(0.5);
+    const double t1 = 1.7e9, t2 = clock_class_b ? 1.7e9 + 86400. * 37.5 : 1.7e9;
+    OneRun a = run_once(c1, base + "/runA", 0x00, t1, false);
+    std::vector< void * > pad;
+    for (int k = 0; k < 200; ++k)
+      pad.push_back(malloc(16 + (size_t)vr.below(4000)));
+    for (size_t k = 0; k < pad.size(); k += 2)
+      free(pad[k]);
+    // (same directory: its name is part of the parameter file, i.e. of the
+    // input, and is stored in the snapshots)
+    OneRun b = run_once(c2, base + "/runA", 0xA5, t2, clock_class_b);
+    for (size_t k = 1; k < pad.size(); k += 2)
+      free(pad[k]);
+    if (chdir(base.c_str())) {
+    }
+    out.restart_worker = !a.finished || !b.finished;
+    out.hash = fnv1a(a.rs.hash, a.ledger_hash);
+    out.nontrivial = !a.files.empty();
+    Json st = Json::object();
+    st["pairs_executed"] = 1;
+    st["clock_class_B_pairs"] = clock_class_b ? 1 : 0;
+    st["gadget_writer_pairs"] = c0.writer == 1 ? 1 : 0;
+    st["snapshot_files_compared"] = (long long)a.files.size();
+    out.stats = st;
+    out.signature = Json::object();
+    if (!a.finished || !b.finished || a.ledger_failed || b.ledger_failed) {
+      out.notes.push_back("a run of the pair did not complete cleanly "
+                          "(decided by other properties)");
+      return out;
+    }
+    const char *cls = prop == "C13" ? "output-differs" : "uninitialised-dependent";
+    if (a.files.size() != b.files.size() || a.files.empty()) {
+      out.vclass = cls;
+      out.message = sfmt("two executions of the same case wrote %zu and %zu "
+                         "snapshot files",
+                         a.files.size(), b.files.size());
+      return out;
+    }
+    for (auto &kv : a.files) {
+      auto it = b.files.find(kv.first);
+      if (it == b.files.end()) {
+        out.vclass = cls;
+        out.message = "snapshot " + kv.first + " missing in the second run";
+        return out;
+      }
+      const bool hdf5 = kv.first.size() > 5 &&
+                        kv.first.compare(kv.first.size() - 5, 5, ".hdf5") == 0;
+      if (hdf5 && clock_class_b) {
+        // the wall clock is an input of the Gadget writer (creation time
+        // attribute, HDF5 object times): with a different simulated clock
+        // only the size is compared here
+        if (kv.second.size() != it->second.size()) {
+          out.vclass = cls;
+          out.message = sfmt("snapshot %s has %zu bytes in one run and %zu in "
+                             "the other",
+                             kv.first.c_str(), kv.second.size(),
+                             it->second.size());
+          return out;
+        }
+        long diff = 0;
+        for (size_t k = 0; k < kv.second.size(); ++k)
+          if (kv.second[k] != it->second[k])
+            ++diff;
+        st["hdf5_bytes_differing_with_other_clock"] = (long long)diff;
+        if (diff > 64) {
+          out.vclass = cls;
+          out.message = sfmt("snapshot %s differs in %ld bytes between two "
+                             "runs that differ only in the simulated wall "
+                             "clock (creation time and object times account "
+                             "for at most a few dozen)",
+                             kv.first.c_str(), diff);
+          return out;
+        }
+        out.stats = st;
+        continue;
+      }
+      if (kv.second != it->second) {
+        size_t o = 0;
+        while (o < kv.second.size() && o < it->second.size() &&
+               kv.second[o] == it->second[o])
+          ++o;
+        out.vclass = cls;
+        out.message =
+            sfmt("snapshot %s differs between two executions of the same case "
+                 "(seed %d, one thread%s): %zu vs %zu bytes, first difference "
+                 "at byte %zu",
+                 kv.first.c_str(), c0.seed,
+                 clock_class_b ? ", different simulated wall clock" : "",
+                 kv.second.size(), it->second.size(), o);
+        return out;
+      }
+    }
+    if (out.hash != fnv1a(b.rs.hash, b.ledger_hash) && c0.threads == 1) {
+      out.vclass = cls;
+      out.message = "event logs of two executions of the same one-thread case "
+                    "differ";
+    }
+    return out;
+  }
+
   Outcome execute(const Json &cj) {
     Outcome out;
     Cfg c = Cfg::from_json(cj);
+    if (prop == "C13" || (prop == "C12" && mode == "perturb"))
+      return execute_twice(c);
     const std::string dir = scratch_dir();
+    remove_snapshots(dir);
     const std::string pf = c.write_files(dir);
+    scrub_memory(0xA5);
     Ledger L;
     L.lay.init(c);
     L.record_segments = (prop == "C03");
@@ -577,9 +790,27 @@ public:
       message = sfmt("%lld of %d iterations reported an end record",
                      L.stats["iterations"], c.iterations);
     }
+    if (prop == "C12" && vclass.empty() && finished) {
+      // expected outputs exist and can be opened
+      std::map< std::string, std::string > files = snapshot_files(dir);
+      const size_t want = 1 + (c.initial_snapshot ? 1 : 0);
+      if (files.size() < want) {
+        vclass = "missing-output";
+        message = sfmt("run ended normally but wrote %zu snapshot files, "
+                       "expected %zu",
+                       files.size(), want);
+      }
+      for (auto &kv : files)
+        if (kv.second.empty() && vclass.empty()) {
+          vclass = "missing-output";
+          message = "snapshot " + kv.first + " is empty";
+        }
+    }
     // attribute to the property this check decides
     if (!vclass.empty()) {
-      const char **mine = prop == "C03" ? C03_CLASSES : C01_CLASSES;
+      const char **mine = prop == "C03"   ? C03_CLASSES
+                          : prop == "C12" ? C12_CLASSES
+                                          : C01_CLASSES;
       if (in_list(mine, vclass)) {
         out.vclass = vclass;
         out.message = message;
@@ -697,7 +928,39 @@ public:
   }
 
   void describe(Json &cov, Json &assumptions) const {
-    if (prop == "C03") {
+    if (prop == "C13") {
+      cov["rule"] =
+          "E-ION part of C13: each evaluation = one generated photoionization "
+          "problem (same space as C01, one thread, AsciiFile or Gadget/HDF5 "
+          "writer, with and without initial snapshot / temperature "
+          "calculation) executed twice while the simulator varies everything "
+          "it owns that is not seed or input: rdtsc values, heap fill byte "
+          "(M_PERTURB 0x00 / 0xA5), heap layout (extra allocations), and - in "
+          "half of the pairs (class B) - the simulated wall clock (other start "
+          "time, forward and backward jumps). All snapshot files must be "
+          "byte-identical; for Gadget snapshots of class B pairs only the "
+          "creation-time attribute and HDF5 object times may differ (at most "
+          "64 bytes, same size). distinct = distinct event-log hash";
+    } else if (prop == "C12" && mode == "perturb") {
+      cov["rule"] =
+          "heap-perturbation part of C12: each evaluation = one generated "
+          "photoionization problem executed twice with malloc'd memory filled "
+          "with 0x00 and with 0xA5 (M_PERTURB), other rdtsc values and other "
+          "heap layout; any difference in the snapshots or the event log "
+          "means a decision was taken on uninitialised memory";
+    } else if (prop == "C12") {
+      cov["rule"] =
+          "sanitizer part of C12 (task-based ionization mode): whole runs "
+          "from generated parameter files (space of C01 widened over Gadget / "
+          "AsciiFile writer, initial snapshot, temperature calculation, "
+          "trackers, task plot mode) built with AddressSanitizer + "
+          "UndefinedBehaviorSanitizer, inside the simulator (1-8 simulated "
+          "threads, seeded schedules, small photon buffers so that pools wrap "
+          "and overflow paths run); stack and heap are pre-filled with 0xA5 "
+          "so that uninitialised reads are hostile and reproducible. Oracle: "
+          "normal return, no sanitizer report / signal / abort, expected "
+          "snapshot files exist and are non-empty";
+    } else if (prop == "C03") {
       cov["rule"] =
           "each run = one whole TaskBasedIonizationSimulation (generated "
           "parameter file: layout 1-4 subgrids per axis, all periodicity "
